@@ -264,6 +264,11 @@ fn receive<T: Probeable>(rx: IpcReceiver<T>, via_set: bool, undecoded: bool, nms
         }
     }
     hist::log("receiver.done", 0, 0, 0, "");
+    // stay alive: thread exit would release the library's per-thread tables and hide what a
+    // failed decode left in them
+    loop {
+        std::thread::park();
+    }
 }
 
 fn run_typed<T: Probeable + 'static>(p: &Value, out: &mut Outcome)
